@@ -43,9 +43,108 @@ fn pick_pacing(rng: &mut StdRng) -> (i64, i64, i64, i64, i64, i64, i64) {
     }
 }
 
+/// Adversarial workloads for the completion bound of C09: every allocation is sent down ONE route of
+/// the per-object work (mark + trace + keep; weakly marked first, then strongly; born garbage: drop +
+/// free; weakly held garbage: mark + drop + keep) under a pacing that prices exactly that route at
+/// rho = 15/16, starting from a tiny heap.  Any unit of work that is credited more than its factor on
+/// that route pushes the cycle past rho * H / (1 - rho) allocations.
+fn run_tight(rng: &mut StdRng, run_id: usize, p: &Params) {
+    ev!("{{\"ev\":\"reset\",\"beh\":{},\"epilogue\":\"random\"}}", run_id);
+    let mut w = World::new(0, 1);
+    w.st.quiet_survey = true;
+    let route = rng.random_range(0..4);
+    let sf = [0i64, 0, 4, 16][rng.random_range(0..4)];
+    let (mf, tf, kf, df, ff) = match route {
+        0 => (5, 5, 5, 1, 1),
+        1 => (13, 1, 1, 1, 1),
+        2 => (1, 1, 1, 7, 8),
+        _ => (7, 1, 1, 7, 1),
+    };
+    w.set_pacing_q(sf, 0, mf, tf, kf, df, ff);
+    let mut n = 0usize; // chain length
+    let mut g = 0usize; // garbage / shell counter
+    for _step in 0..p.steps {
+        if !w.alive() {
+            break;
+        }
+        let burst = if rng.random_range(0..4) == 0 { rng.random_range(2..4) } else { 1 };
+        for _ in 0..burst {
+            let (k, gi) = (n, g);
+            match route {
+                0 | 1 => {
+                    n += 1;
+                    w.edit_root(Via::MutateRoot, move |st, mc, root| {
+                        let found = st.survey(mc, root, None);
+                        let name = format!("x{k}");
+                        let c = st.alloc(mc, Kind::N, &name);
+                        let cs = st.serial_of(&name).unwrap();
+                        if k == 0 {
+                            root.strong.push(c);
+                            st.root_s.push(cs);
+                            ev!("{{\"ev\":\"store\",\"a\":{},\"p\":0,\"c\":{},\"path\":\"mutate_root\",\"effective\":true}}", st.id, cs);
+                            return;
+                        }
+                        // the strong holder is re-grayed first, the weak holder last: the weak holder is
+                        // traced first (the queues are stacks)
+                        let ps = st.serial_of(&format!("x{}", k - 1)).unwrap();
+                        if let Some(&pp) = found.get(&ps) {
+                            st.store(mc, ps, pp, cs, c, "borrow_mut");
+                        }
+                        if route == 1 && k >= 2 {
+                            let hs = st.serial_of(&format!("x{}", k - 2)).unwrap();
+                            if let Some(&hp) = found.get(&hs) {
+                                st.wstore(mc, hs, hp, cs, c, "borrow_mut");
+                            }
+                        }
+                    });
+                }
+                2 => {
+                    g += 1;
+                    w.mutate("garbage", move |st, mc, _root| {
+                        st.alloc(mc, Kind::N, &format!("g{gi}"));
+                    });
+                }
+                _ => {
+                    g += 1;
+                    let cap = p.max_objs;
+                    w.edit_root(Via::MutateRoot, move |st, mc, root| {
+                        st.survey(mc, root, None);
+                        let name = format!("s{gi}");
+                        let c = st.alloc(mc, Kind::N, &name);
+                        let cs = st.serial_of(&name).unwrap();
+                        if root.weak.len() >= cap {
+                            let t = st.root_w.remove(0);
+                            root.weak.remove(0);
+                            ev!("{{\"ev\":\"wremove\",\"a\":{},\"p\":0,\"t\":{},\"path\":\"mutate_root\"}}", st.id, t);
+                        }
+                        root.weak.push(c.downgrade());
+                        st.root_w.push(cs);
+                        ev!("{{\"ev\":\"wstore\",\"a\":{},\"p\":0,\"t\":{},\"path\":\"mutate_root\"}}", st.id, cs);
+                    });
+                }
+            }
+        }
+        w.call("cycle_debt", 0, "real", false, true, None);
+        if rng.random_range(0..16) == 0 {
+            w.observe();
+        }
+    }
+    if w.alive() {
+        w.call("finish_cycle", 0, "real", false, true, None);
+        w.call("finish_cycle", 0, "real", false, true, None);
+        w.observe();
+        ev!("{{\"ev\":\"c02_check\",\"a\":0,\"count\":{},\"phase\":\"{}\"}}", w.metrics.total_gc_count(), w.phase());
+    }
+    w.drop_arena();
+    ev!("{{\"ev\":\"end\",\"beh\":{},\"outstanding\":{},\"overflow\":{}}}", run_id, ALLOC.outstanding(), ALLOC.overflowed());
+}
+
 pub fn run(seed: u64, run_id: usize, p: &Params) {
     ALLOC.reset();
     let mut rng = StdRng::seed_from_u64(seed.wrapping_mul(1_000_003).wrapping_add(run_id as u64));
+    if run_id % 4 == 3 {
+        return run_tight(&mut rng, run_id, p);
+    }
     ev!("{{\"ev\":\"reset\",\"beh\":{},\"epilogue\":\"random\"}}", run_id);
     let mut w = World::new(0, 1);
     w.st.quiet_survey = true;
